@@ -233,9 +233,12 @@ func cmdCheck(args []string) int {
 	}
 	obls = append(obls, dobls...)
 
-	secs := 10
+	// CPU seconds per solver in the race (the first stage is a 4 s attempt with z3 5.1).
+	// Obligations that hold are discharged well inside the budget on an idle machine;
+	// the margin is for loaded machines and for solver run-to-run variance.
+	secs := 30
 	if *tier == "thorough" {
-		secs = 60
+		secs = 120
 	}
 	solveStart := time.Now()
 	solveAll(obls, secs)
